@@ -35,6 +35,29 @@ def compare_moves(out, kind, clause, what, net, sub_moves, space, free):
     return True
 
 
+def restricted_net_problems(r, sp, free, what="restricted net", prefix="restricted_net"):
+    """Structural failures of a net that should encode exactly the variables `free` (those not fixed by `sp`): a
+    transition whose `change` variable is fixed (it would move a variable that is no longer there), a transition
+    touching a place of a fixed variable, and any other violation of the encoding's shape.  Never raises."""
+    out = []
+    freeset = set(free)
+    for t, data in r.nodes(data=True):
+        if data.get("kind") != "transition":
+            continue
+        ch = data.get("change")
+        touched = {str(p)[3:] for p in list(r.predecessors(t)) + list(r.successors(t))}
+        if ch is not None and ch not in freeset:
+            out.append(fail(f"{prefix}_has_transition_of_fixed_variable", f"the {what} is over exactly the variables left free: no transition changes a fixed variable",
+                            f"space {sp}: transition {t} changes {ch} (reads {sorted(touched)})", observed=str(t), expected=f"no transition with change={ch}"))
+        elif touched - freeset:
+            out.append(fail(f"{prefix}_transition_touches_fixed_variable", f"the {what} is over exactly the variables left free", f"space {sp}: transition {t}",
+                            observed=sorted(touched - freeset)))
+    if not out:
+        for p in pn_well_formed(r):
+            out.append(fail(f"{prefix}_malformed", f"the {what} is a well-formed encoding", f"space {sp}: {p}"))
+    return out[:3]
+
+
 def net_moves_fn(sub):
     def fn(d):
         s = sub.state_of(d)
@@ -128,7 +151,10 @@ def check_with_info(case):
         if not net.is_trap(sp):
             continue
         npn = sd.node_percolated_petri_net(i, compute=True)
-        if pn_variables(npn) != sorted(free):
+        bad = restricted_net_problems(npn, sp, free, what="node's Petri net", prefix="node_petri_net")
+        if bad:
+            out += bad
+        elif pn_variables(npn) != sorted(free):
             out.append(fail("node_petri_net_places", "node_percolated_petri_net is over exactly the free variables", f"node {i} {sp}", observed=pn_variables(npn), expected=sorted(free)))
         else:
             compare_moves(out, "node_petri_net_transition_mismatch", "the node's Petri net coincides with the original dynamics on the node's space", f"node {i} {sp}", net,
